@@ -29,6 +29,26 @@
 //
 // Channel parts (<router>-chan): the token request carries grant_type (gtq) or
 // all parameters (allq) in the URL query instead of the body.
+//
+// Near-miss parts (<router>-near): for every live code the owner's fully correct
+// exchange with exactly ONE string replaced by a generated near miss of the right
+// value: redirect_uri (suffix- / prefix-extended with and without separator,
+// trailing slash, one character shorter, path case, "%2F", trailing space, empty,
+// repeated parameter, loopback port / host variants), code_verifier (padding,
+// base64 spelling, prefix, suffix, case, S256 transform, empty; 42 and 129
+// characters), the code string itself (character flipped / cut / appended,
+// padding, case, the request id sealed again under the provider's key = another
+// IV, sealed prefix / extension of the id, a sealed id of a request that never got
+// a code). The oracle compares the presented VALUES with the request's.
+//
+// Identity parts (<router>-ids): clients web / web2 / Web / we / xweb, pub / Pub /
+// pub2, jwt / jwt2 (same kid, different key) registered side by side, as owners
+// and as callers, also with the sibling's secret and with Basic credentials of
+// one client + form client_id of the owner.
+//
+// Enum parts (<router>-enum-s256on|off): code_challenge_method {no challenge,
+// S256, plain, absent, "s256", undefined} x op.Config.CodeMethodS256 x one client
+// per (authentication method x application type) as owner and caller.
 package c04
 
 import (
@@ -192,6 +212,34 @@ func flipChar(s string, i int) string {
 	return string(b)
 }
 
+// nearGroup: the family of a near-miss variant (signature component: one signature per
+// kind of tolerance, not per spelling)
+func nearGroup(variant string) string {
+	switch variant {
+	case "~suf", "~slash", "~sufslash", "~sufdot", "~sufcolon", "~query", "~frag", "~sp", "~pad", "~ext", "~chalpad":
+		return "suffix-extended"
+	case "~pre", "~suffixof", "~inside":
+		return "prefix-extended"
+	case "~short", "~half", "~empty", "~cut":
+		return "shortened"
+	case "~case", "~chalcase", "~hostcase":
+		return "case"
+	case "~enc2f", "~std", "~chalstd":
+		return "respelled"
+	case "~s256":
+		return "transformed"
+	case "~dupro", "~dupor", "~dupoo":
+		return "repeated"
+	case "~port", "~noport", "~lhost", "~reg":
+		return "loopback"
+	case "~flipl", "~flipf", "~flipm":
+		return "flipped"
+	case "~reseal", "~sealpre", "~sealext", "~seal":
+		return "resealed"
+	}
+	return "other"
+}
+
 var nearURINames = []string{"~empty", "~suf", "~slash", "~sufslash", "~sufdot", "~sufcolon", "~query", "~frag", "~short", "~pre",
 	"~suffixof", "~inside", "~case", "~hostcase", "~enc2f", "~sp", "~dupro", "~dupor", "~dupoo",
 	"~port", "~noport", "~lhost", "~reg"}
@@ -269,7 +317,7 @@ func nearURI(name, right, other string) (vals []string, lenient, ok bool) {
 	return nil, false, false
 }
 
-var nearVerNames = []string{"~empty", "~pad", "~short", "~suf", "~pre", "~case", "~std", "~sp", "~s256", "~chalpad", "~chalstd", "~chalcase"}
+var nearVerNames = []string{"~empty", "~pad", "~short", "~half", "~suf", "~pre", "~case", "~std", "~sp", "~s256", "~chalpad", "~chalstd", "~chalcase"}
 
 // nearVer: code_verifier variant name of the right verifier v / its challenge chal
 func nearVer(name, v, chal string) (string, bool) {
@@ -281,6 +329,8 @@ func nearVer(name, v, chal string) (string, bool) {
 		return diff(v + "=")
 	case "~short":
 		return diff(v[:len(v)-1])
+	case "~half":
+		return diff(v[:len(v)/2])
 	case "~suf":
 		return diff(v + "A")
 	case "~pre":
@@ -665,8 +715,13 @@ type faultPlan struct {
 }
 
 func mkErr(kind string) error {
-	if kind == "deadline" {
+	switch kind {
+	case "deadline":
 		return context.DeadlineExceeded
+	case "canceled":
+		return context.Canceled
+	case "oidc": // a storage may answer with the library's own error type (op.Storage documents *oidc.Error for several calls)
+		return oidc.ErrInvalidGrant().WithDescription("c04: injected storage failure")
 	}
 	return errors.New("c04: injected storage failure")
 }
@@ -692,7 +747,7 @@ func splitFault(op string) (string, *faultPlan, error) {
 	fp := &faultPlan{occ: 1, kind: "plain"}
 	suffix, kind, ok := strings.Cut(suffix, "/")
 	if ok {
-		if kind != "deadline" && kind != "plain" {
+		if !slices.Contains([]string{"plain", "deadline", "canceled", "oidc"}, kind) {
 			return base, nil, fmt.Errorf("unknown error kind %q", kind)
 		}
 		fp.kind = kind
@@ -993,6 +1048,9 @@ func (p *part) exec(r *rig.Rig, s *S, op string, fp *faultPlan) engine.Result {
 			}
 		}
 		id, resp := r.Authorize(p.router, q)
+		if id == "" && len(f) > 3 { // a redirect_uri that is not literally registered: what the authorization endpoint accepts is C03's business
+			return engine.OK("authorize-unregistered-loopback-port", obsClass(resp))
+		}
 		if id == "" && ch != "none" && (!definedMethod(ch) || p.s256Off) {
 			// a provider may refuse a transformation it does not know / does not advertise (RFC 7636 4.4.1)
 			return engine.OK("authorize-unsupported-challenge-method", obsClass(resp))
@@ -1144,7 +1202,7 @@ func (p *part) judge(s *S, cr codeRef, ca caller, uri, ver, channel string) verd
 	case "garbage", "absent":
 		return verdict{"refuse", "x-refuse-unknown-code", "unknown-code", "garbage-code"}
 	case "near": // a string that was never handed out, however close to one that was
-		return verdict{"refuse", "x-refuse-near-code", "unknown-code", "near-code"}
+		return verdict{"refuse", "x-refuse-near-code", "unknown-code", "near-code-" + nearGroup(cr.mut)}
 	}
 	code := s.Codes[cr.k]
 	rq := s.Reqs[code.Req]
@@ -1198,7 +1256,7 @@ func (p *part) judge(s *S, cr codeRef, ca caller, uri, ver, channel string) verd
 		case lenient:
 			either = "x-either-uri-equivalent-or-repeated"
 		case strings.HasPrefix(uri, "~"):
-			return verdict{"refuse", "x-refuse-near-uri", "redirect-uri", "near-uri"}
+			return verdict{"refuse", "x-refuse-near-uri", "redirect-uri", "near-uri-" + nearGroup(uri)}
 		default:
 			return verdict{"refuse", "x-refuse-uri", "redirect-uri", uri + "-uri"}
 		}
@@ -1220,7 +1278,7 @@ func (p *part) judge(s *S, cr codeRef, ca caller, uri, ver, channel string) verd
 	} else {
 		if !present || presented == "" {
 			if nearV {
-				return verdict{"refuse", "x-refuse-near-verifier", "pkce", "near-verifier"}
+				return verdict{"refuse", "x-refuse-near-verifier", "pkce", "near-verifier-" + nearGroup(ver)}
 			}
 			return verdict{"refuse", "x-refuse-pkce", "pkce", kind + "-missing-verifier"}
 		}
@@ -1242,7 +1300,7 @@ func (p *part) judge(s *S, cr codeRef, ca caller, uri, ver, channel string) verd
 		if !match {
 			switch {
 			case nearV:
-				return verdict{"refuse", "x-refuse-near-verifier", "pkce", "near-verifier"}
+				return verdict{"refuse", "x-refuse-near-verifier", "pkce", "near-verifier-" + nearGroup(ver)}
 			case ver == "chal":
 				return verdict{"refuse", "x-refuse-pkce", "pkce", "challenge-as-verifier"}
 			}
@@ -1558,7 +1616,9 @@ func TestCheck(t *testing.T) {
 	c.Assume(
 		"refstore is a correct op.Storage (SaveAuthCode/AuthRequestByCode/DeleteAuthRequest as documented)",
 		"codes and request ids are only compared for equality by provider and storage (α-renaming in the canonical form)",
-		"all steps happen at one fake instant (synctest bubble, Epoch+1h); code expiry is the storage's business and not modelled",
+		"all steps happen at one fake instant (synctest bubble, Epoch+1h); neither the library (op.AuthRequestByCode, CodeExchange, LegacyServer.CodeExchange, CreateTokenResponse) nor refstore enforces a code lifetime or an authorization-request expiry - op.Storage leaves it to the storage - so there is no clock dimension",
+		"a code_challenge_method the statement does not define (\"s256\", \"S512\"): an exchange whose verifier matches the challenge under plain or under S256 is left open (the library stores the method verbatim and compares such challenges as plain); a verifier that matches under neither must be refused",
+		"a redirect_uri that differs from the request's only in the case of scheme / host, or a repeated redirect_uri parameter one of whose values is right, is left open; every other difference (path case, %2F, trailing slash or space, ...) must be refused",
 		"access tokens are opaque (AES-sealed token id); the stored token record stands in for introspection",
 	)
 	// thorough: the wide alphabet (3 requests, 4 codes, method-less challenge) to depth 7 and, as
@@ -1602,7 +1662,7 @@ func TestCheck(t *testing.T) {
 		}
 	}
 	// faulty operations: exactly one storage call of a callback / exchange fails
-	kinds := engine.Pick(c, []string{"plain"}, []string{"plain", "deadline"})
+	kinds := engine.Pick(c, []string{"plain", "oidc"}, []string{"plain", "oidc", "deadline", "canceled"})
 	for router := 0; router < 2; router++ {
 		parts = append(parts, &part{
 			name: rig.Routers[router] + "-fault", router: router,
